@@ -38,6 +38,15 @@ def replay(w):
             args = [S] + ([lam] if isinstance(lam, np.ndarray) else [])
             cb = (lambda rho, rp, tp, rd, td: rho * 2) if nt.get('cb') else None
             call = lambda: admm.admm_optimize_theta(S, lam, W, N, max_iterations=int(nt.get('maxit', 2)) + 3, rho_update=cb)
+        elif kind == 'optimiser_writable':
+            N, W = int(nt['N']), int(nt['W'])
+            n = N * W
+            A = rng.standard_normal((n, n))
+            S = A @ A.T + np.eye(n)
+            S[0, n - 1] += 1e-13                     # symmetric only up to round-off, writable, C-ordered
+            lam = np.full((n, n), 0.2)
+            args = [S, lam]
+            call = lambda: admm.admm_optimize_theta(S, lam, W, N, max_iterations=3)
         elif kind == 'filter':
             M = _ro(rng.standard_normal((2, 2)))
             args = [M]
